@@ -12,8 +12,8 @@ package main
 //   string(x)  sprintf("%v", x)  sprintf("%s", x)  fmt.sprintf("<%v>", x)  '{x}'  'a{x}b'
 //   string([x])  sprintf("%v", [x])  sprintf("%v", {"k": x})
 //   string(errorf("e %v", x))  string(errors.new("n %v", x))
-//   try(func() { error("E %v", x) }, …)                 (Interface()+%v: the known finding)
-//   x.Inspect()  fmt.Sprintf("%v", object.PrintableValue(x))                (Go API, direct)
+//   try(func() { error("E %v", x) }, …)      (PrintableValue since the repair of C05-error-format-raw-go-value)
+//   x.Inspect()  fmt.Sprintf("%v", object.PrintableValue(x))  builtins.Sprintf("%v", x)   (Go API, direct)
 //
 // Correspondence: every text must equal the model's (oracle request `render`).
 // Spec: the script is evaluated `reps` times in fresh VMs and in fresh processes, all texts
@@ -31,11 +31,11 @@ import (
 	"time"
 
 	"github.com/risor-io/risor"
+	"github.com/risor-io/risor/builtins"
 	"github.com/risor-io/risor/object"
 )
 
 const (
-	c05_fErrFmt       = "C05-error-format-raw-go-value"
 	c05_renderMarker  = "// c05-render: concurrency + host objects\n"
 	c05_renderTimeout = 5 * time.Second
 )
@@ -47,7 +47,7 @@ type c05_rnode struct {
 	kind          string
 	txt, raw, aux string
 	kids          []*c05_rnode
-	errOK         bool // Interface()+%v of this node (and everything below) is modelled by ifaceV
+	errOK         bool // (historical) Interface()+%v of this node (and everything below) is modelled by ifaceV, the pre-fix error() route
 }
 
 func c05_hexField(s string) string {
@@ -459,23 +459,22 @@ func c05_renderScript(prelude []string, expr string, node *c05_rnode) (string, [
 	if !c05_isPrimitiveKind(node.kind) {
 		routes = append(routes, "sprintf(\"%s\", x)")
 	}
-	if node.errOK {
-		// last: Interface() exhausts an iterator (none is rendered on this route)
-		routes = append(routes, "try(func() { error(\"E %v\", x) }, func(e) { return string(e) })")
-	}
+	// the error() builtin: PrintableValue + %v since its repair, for every object
+	routes = append(routes, "try(func() { error(\"E %v\", x) }, func(e) { return string(e) })")
 	sb.WriteString("[x, [" + strings.Join(routes, ", ") + "]]\n")
 	return sb.String(), routes
 }
 
 type c05_renderModel struct {
-	inspect, printable, str, interp, iface, noFallback string
-	noRawAddr, cellFree                                bool
-	ok                                                 bool
+	inspect, printable, str, interp, errorFmt, noFallback string
+	ifacePreFix                                           string // Interface()+%v: what error() printed before its repair
+	noRawAddr, cellFree                                   bool
+	ok                                                    bool
 }
 
 func c05_parseRender(reply string) (m c05_renderModel) {
 	f := strings.Split(reply, "\t")
-	if len(f) != 9 || f[0] != "ok" {
+	if len(f) != 10 || f[0] != "ok" {
 		return
 	}
 	un := func(s string) string {
@@ -484,7 +483,7 @@ func c05_parseRender(reply string) (m c05_renderModel) {
 		}
 		return UnHex(s)
 	}
-	return c05_renderModel{un(f[1]), un(f[2]), un(f[3]), un(f[4]), un(f[5]), un(f[6]), f[7] == "true", f[8] == "true", true}
+	return c05_renderModel{un(f[1]), un(f[2]), un(f[3]), un(f[4]), un(f[5]), un(f[6]), un(f[7]), f[8] == "true", f[9] == "true", true}
 }
 
 type c05_renderObs struct {
@@ -492,6 +491,7 @@ type c05_renderObs struct {
 	stdout string
 	insp   string // x.Inspect(), called by the harness
 	pv     string // fmt.Sprintf("%v", object.PrintableValue(x))
+	bsp    string // builtins.Sprintf(ctx, "%v", x) (shadowed by fmt.sprintf in the default globals: reached through the Go API)
 	err    string
 }
 
@@ -516,6 +516,11 @@ func c05_renderObserve(src string) (o c05_renderObs) {
 		x := top.Value()[0]
 		o.insp = x.Inspect()
 		o.pv = fmt.Sprintf("%v", object.PrintableValue(x))
+		if so, ok := builtins.Sprintf(context.Background(), object.NewString("%v"), x).(*object.String); ok {
+			o.bsp = so.Value()
+		} else {
+			o.bsp = "<not a string>"
+		}
 		l, ok := top.Value()[1].(*object.List)
 		if !ok {
 			o.err = "result is not [x, texts]"
@@ -533,7 +538,7 @@ func c05_renderObserve(src string) (o c05_renderObs) {
 }
 
 func (o c05_renderObs) key() string {
-	return strings.Join(o.texts, "\x00") + "\x01" + o.stdout + "\x01" + o.insp + "\x01" + o.pv + "\x01" + o.err
+	return strings.Join(o.texts, "\x00") + "\x01" + o.stdout + "\x01" + o.insp + "\x01" + o.pv + "\x01" + o.bsp + "\x01" + o.err
 }
 
 func c05_maskPtr(s string) string { return c05_anyPtr.ReplaceAllString(s, "0xPTR") }
@@ -570,7 +575,7 @@ func (c *c05_renderCase) want(route string) (string, bool) {
 	case strings.HasPrefix(route, "string(errors.new("):
 		return "n " + c.mX.printable, false
 	case strings.HasPrefix(route, "try(func() { error("):
-		return "E " + c.mX.iface, true
+		return "E " + c.mX.errorFmt, true
 	}
 	return "?", false
 }
@@ -642,7 +647,6 @@ func c05Render(e *Env, n, reps, children int) {
 			e.R.H("render_outcome", "time-limit (not compared)")
 			continue
 		}
-		attributed := c.node.errOK && !c.mX.noRawAddr // the error() route of this case prints an address (known finding)
 		varies := ""
 		for rep := 1; rep < reps && varies == ""; rep++ {
 			o := c05_renderObserve(c.src)
@@ -655,11 +659,7 @@ func c05Render(e *Env, n, reps, children int) {
 		}
 		if varies != "" {
 			e.R.H("render_variation", "in-process")
-			if f := c05_onlyErrRouteDiffers(c, varies, attributed); f != "" {
-				e.R.Spec(c.src, "the rendered text differs between evaluations in fresh VMs: "+varies, f)
-			} else {
-				e.R.Spec(c.src, "the rendered text differs between evaluations in fresh VMs: "+varies, "")
-			}
+			e.R.Spec(c.src, "the rendered text differs between evaluations in fresh VMs: "+varies, "")
 		} else {
 			e.R.H("render_variation", "none in-process")
 		}
@@ -673,12 +673,8 @@ func c05Render(e *Env, n, reps, children int) {
 			a, b := procObs[0], procObs[j]
 			if a.Value != b.Value || a.Err != b.Err || a.Stdout != b.Stdout {
 				detail := fmt.Sprintf("the rendered text differs between fresh processes: value=%q err=%q stdout=%q | value=%q err=%q stdout=%q", a.Value, a.Err, a.Stdout, b.Value, b.Err, b.Stdout)
-				f := ""
-				if attributed && c05_maskPtr(a.Value) == c05_maskPtr(b.Value) && a.Stdout == b.Stdout && a.Err == b.Err {
-					f = c05_fErrFmt
-				}
 				e.R.H("render_variation", "fresh-processes")
-				e.R.Spec(c.src, detail, f)
+				e.R.Spec(c.src, detail, "")
 				break
 			}
 		}
@@ -694,18 +690,21 @@ func c05Render(e *Env, n, reps, children int) {
 		e.R.H("render_outcome", "rendered")
 		check := func(route, got, want string, errRoute bool) {
 			e.R.H("render_routes", route[:min(28, len(route))])
-			if errRoute && !c.mX.noRawAddr {
-				// inside the finding: fmt prints an address where the model prints the one it was given
-				e.R.H("render_error_route", "address (known finding)")
-				if c05_maskPtr(got) != c05_maskPtr(want) {
-					e.R.Mismatch(c.src, got, want, "route "+route+" (addresses masked)")
+			if errRoute {
+				// the repaired defect C05-error-format-raw-go-value: Interface()+%v printed the address of a
+				// channel, builtin, file, partial, proxy.  Not a listed finding any more: a recurrence is a violation.
+				if c.mX.noRawAddr {
+					e.R.H("render_error_route", "object without a Go pointer behind it")
+				} else {
+					e.R.H("render_error_route", "channel/builtin/partial/... inside")
+				}
+				if got != want && c.node.errOK && c05_maskPtr(got) == c05_maskPtr("E "+c.mX.ifacePreFix) {
+					e.R.Mismatch(c.src, got, want, "route "+route+": this is what error() printed BEFORE its repair (Interface() handed to fmt instead of PrintableValue)")
+					if c05_ptrPattern.MatchString(got) && !c05_ptrPattern.MatchString(want) {
+						e.R.Spec(c.src, fmt.Sprintf("%s gives %q: error() formats the Go value behind the object (Interface()), fmt prints its address (expected %q)", route, got, want), "")
+					}
 					return
 				}
-				e.R.Spec(c.src, fmt.Sprintf("%s gives %q: error() formats the Go value behind the object (Interface()), fmt prints its address", route, got), c05_fErrFmt)
-				return
-			}
-			if errRoute {
-				e.R.H("render_error_route", "no address")
 			}
 			if got != want {
 				e.R.Mismatch(c.src, got, want, "route "+route)
@@ -720,6 +719,7 @@ func c05Render(e *Env, n, reps, children int) {
 		}
 		check("x.Inspect()", c.first.insp, c.mX.inspect, false)
 		check("fmt.Sprintf(\"%v\", object.PrintableValue(x))", c.first.pv, c.mX.printable, false)
+		check("builtins.Sprintf(ctx, \"%v\", x)", c.first.bsp, c.mX.errorFmt, false)
 		p := c.mX.printable
 		check("print(x); printf(\"%v;\\n\", x); fmt.println(x, x); print([x])", c.first.stdout, p+"\n"+p+";\n"+p+" "+p+"\n"+c.mL.inspect+"\n", false)
 		for j, route := range c.routes {
@@ -743,25 +743,15 @@ func c05_renderDiff(c *c05_renderCase, a, b c05_renderObs) string {
 	if a.pv != b.pv {
 		parts = append(parts, fmt.Sprintf("PrintableValue(x) %q | %q", a.pv, b.pv))
 	}
+	if a.bsp != b.bsp {
+		parts = append(parts, fmt.Sprintf("builtins.Sprintf(\"%%v\", x) %q | %q", a.bsp, b.bsp))
+	}
 	for j := range a.texts {
 		if j < len(b.texts) && a.texts[j] != b.texts[j] && j < len(c.routes) {
 			parts = append(parts, fmt.Sprintf("%s %q | %q", c.routes[j], a.texts[j], b.texts[j]))
 		}
 	}
 	return strings.Join(parts, "; ")
-}
-
-// the variation is attributed to the known finding only when nothing but the error() route differs
-func c05_onlyErrRouteDiffers(c *c05_renderCase, varies string, attributed bool) string {
-	if !attributed {
-		return ""
-	}
-	for _, part := range strings.Split(varies, "; ") {
-		if !strings.HasPrefix(part, "try(func() { error(") {
-			return ""
-		}
-	}
-	return c05_fErrFmt
 }
 
 // c05RenderOpaque: objects of module-defined types and OS-backed objects for which there is no
